@@ -215,7 +215,7 @@ def check(run, views, tier):
         ne, ndec = cr.r_layout(run, F, T, external=True, casts=False)
         run.floor("R-LAYOUT", ndec, 19, "decoder arms")
         nl = rr.r_lossy(run, F)
-        run.floor("R-LOSSY", nl, 13 if rr.async_on(F) else 12, "lossy text conversions")
+        run.floor("R-LOSSY", nl, 3, "lossy text conversions")
         nrej = rr.r_reject(run, F)
         run.floor("R-REJECT", nrej, 5 if rr.async_on(F) else 4, "explicit rejection sites in the parse cone")
         r_state_order(run, F)
